@@ -3,7 +3,7 @@ pub open spec fn q_of(s: Simulation) -> Seq<Entry> { s.scheduler_queue.view() }
 
 // C11: a call on a terminated simulation has no effect on the time and runs no model code
 pub open spec fn terminated_noop(pre: Simulation, post: Simulation) -> bool {
-    post.time.val() == pre.time.val() && post.executor.runs() == pre.executor.runs() && post.is_terminated
+    post.time.val() == pre.time.val() && post.executor.run_at() == pre.executor.run_at() && post.is_terminated
 }
 // C01 / C09: the time moved to the earliest live deadline (<= bound) and exactly the live entries
 // due at that time were handed to the executor, in queue order, before Executor::run was entered once
@@ -38,12 +38,29 @@ pub open spec fn stepped_queue(pre: Simulation, post: Simulation) -> bool {
 pub open spec fn stepped_sync(pre: Simulation, post: Simulation) -> bool {
     post.clock.syncs() == pre.clock.syncs().push(post.time.val())
 }
+// C01: the model code of the step ran exactly once, while the simulation time was the new time (a handler reading the
+// time sees its deadline) ...
+pub open spec fn ran_at_the_new_time(pre: Simulation, post: Simulation) -> bool {
+    let (a, b) = (pre.executor.run_at(), post.executor.run_at());
+    b == a.push(b.last()) && b.last().0 == post.time.val()
+}
+// C18: ... and only after the clock had been synchronised on that time
+pub open spec fn ran_after_sync(pre: Simulation, post: Simulation) -> bool {
+    let (a, b) = (pre.executor.run_at(), post.executor.run_at());
+    b.len() == a.len() + 1 && b.last().1 == post.time.val()
+}
+// several steps: every new run of the executor happened at a time the clock had just been synchronised on
+pub open spec fn runs_consistent(a: Seq<(u64, int)>, b: Seq<(u64, int)>) -> bool {
+    a.len() <= b.len()
+    && (forall|i: int| 0 <= i < a.len() ==> #[trigger] b[i] == a[i])
+    && (forall|i: int| a.len() <= i < b.len() ==> (#[trigger] b[i]).1 == b[i].0)
+}
 // nothing live is due up to the bound: nothing happens except that cancelled heads are discarded
 pub open spec fn idle(pre: Simulation, post: Simulation, bound: u64) -> bool {
     &&& post.time.val() == pre.time.val()
     &&& post.clock.syncs() == pre.clock.syncs()
     &&& post.executor.spawned() == pre.executor.spawned()
-    &&& post.executor.runs() == pre.executor.runs()
+    &&& post.executor.run_at() == pre.executor.run_at()
     &&& post.is_terminated == pre.is_terminated
     &&& exists|n: int| peek_rel(q_of(pre), q_of(post), bound, n)
     &&& (q_of(post).len() == 0 || q_of(post)[0].time > bound)
